@@ -110,3 +110,12 @@ PROPS['C18'] = dict(
     trusted_base=['Python datetime, re, textwrap, dateutil.relativedelta and beancount.core.account as reference implementations of the calendar / regex / account laws'],
     assumptions=[],
 )
+
+PROPS['C17'] = dict(
+    level='other', harness='h17', min_t1=8,
+    explanation='T1 (all inputs): the four converters return the cell unchanged / the units of their currency (NULL when absent, quantized iff a '
+                'formatter is given) and never raise, in particular on NULL cells. Bounded (T3): numberify_results against a reference written from '
+                'the statement (column naming, census order by decreasing frequency, identity columns, row count/order, cell values summed over lots).',
+    trusted_base=['Amount / Position / Inventory API of Beancount (field names, get_currency_units, currencies)', 'DisplayFormatter.quantize is pure'],
+    assumptions=[],
+)
